@@ -146,8 +146,52 @@ def correspondence(ctx):
 # ------------------------------------------------------------------------------------------ independent oracle
 
 
+def gen_view_request(rng):
+  """A two-metric request of the EI endpoint (generator of property C06) in the epsilon-constraint phase with user thresholds on none, one
+  or both optimised metrics - the anchored use of the threshold 'when building failure models' (views/view.py)."""
+  from lib import c06_util as U6
+  for _ in range(400):
+    raw = U6.gen_request(rng, wide=rng.random() < 0.5)
+    if not raw["pareto"]:
+      continue
+    n, npend, nf = len(raw["points"]), len(raw["pending"]), sum(raw["fails"])
+    raw["budget"] = max(1, int(round((n + npend) / rng.choice([0.8, 0.8, 1.2])))) + nf       # epsilon-constraint / completion phase
+    vals = [r[c] for r in raw["values"] for c in raw["opt_ix"]]
+    lo, hi = min(vals), max(vals)
+    style = rng.choice(["both", "both", "one", "none"])
+    for k, c in enumerate(raw["opt_ix"]):
+      raw["thr"][c] = None
+      if style == "both" or (style == "one" and k == 0):
+        raw["thr"][c] = lo + (hi - lo) * rng.choice([-0.5, 0.1, 0.5, 0.9, 1.5])             # inside and outside the data range
+    return raw
+  return None
+
+
+def oracle_view(raw):
+  """C13 at its use site: the threshold given to the failure model of the constrained metric stays within the range of that metric's
+  (scaled) values over the observations, whatever user thresholds are present."""
+  from lib import c06_util as U6
+  obs = U6.observe(raw)
+  if obs.get("raised") or (obs.get("info") or {}).get("method") != "epsilon_constraint" or not obs.get("pfs"):
+    return None
+  info = obs["info"]
+  nthr = sum(raw["thr"][c] is not None for c in raw["opt_ix"])
+  cm = info["cm"]
+  pf = obs["pfs"][cm] if (nthr == 2 and len(obs["pfs"]) >= 2) else obs["pfs"][0]
+  col = pf["gp"]["vals"][: len(raw["points"])]          # that metric's scaled values over the observations (lies of pending points come after)
+  lo, hi = min(col), max(col)
+  tol = 1e-9 * max(1.0, abs(lo), abs(hi))
+  if not (lo - tol <= pf["thr"] <= hi + tol):
+    return dict(signature="C13:view:failure-model threshold of the constrained metric outside the range of that metric", what="view: the epsilon-constraint "
+                "threshold handed to the failure model of the constrained metric is outside the range of that metric over the observations",
+                input=dict(kind="view", raw=raw), observed=dict(threshold=pf["thr"], info=info), expected=[lo, hi], oracle="range of the model's own data column")
+  return None
+
+
 def oracle(kind, inp):
   """Direct statement of the property on the implementation's output. Returns a failure dict or None."""
+  if kind == "view":
+    return oracle_view(inp["raw"])
   try:
     out = run_impl(kind, inp)
   except Exception as e:
@@ -231,7 +275,15 @@ def search(ctx, hints, broken):
       fails.append(r)
       if len(fails) >= 3:
         break
-  return dict(evaluations=n, failures=fails, oracle="brute-force dominance / closed-form threshold / counting")
+  for _ in range(ctx.n(60, 800)):
+    raw = gen_view_request(rng)
+    if raw is None or len(fails) >= 3:
+      break
+    n += 1
+    r = oracle("view", dict(raw=raw))
+    if r and r["signature"] not in {f["signature"] for f in fails}:
+      fails.append(r)
+  return dict(evaluations=n, failures=fails, oracle="brute-force dominance / closed-form threshold / counting; range clause at the view's failure models")
 
 
 def replay(ctx, payload):
